@@ -131,6 +131,8 @@ pub fn run(a: &Args) -> Report {
             subsume: rng.chance(1, 2),
             containers,
             nested_containers: containers && rng.chance(1, 2),
+            isolate_behind_nested: rng.chance(1, 2),
+            max_sorts: if containers { 3 } else { 2 },
             funcs: false,
             rules: rng.chance(1, 3),
             checks: false,
